@@ -183,9 +183,19 @@ def run(F, R):
                 v = bv._trace_rv(r, None, 0)
                 if any(a[0] == "agg" and a[2] and a[2].endswith("InstallSource::OnDemand") for a in lib.alts(v)):
                     ups.append((bi, p))
+        guards_ = lib.equal_edges(bv, lambda t: "@StartUpdateCheck.options.source" in lib.apath(t) and "OnDemand" in lib.apath(t))
+        sel_blocks = set(S.nodes[sn].bi for (cx2, sn, info) in sels if cx2 is cx)
+        if guards_ and sel_blocks:
+            # must direction: an on-demand request taken while busy always raises the pending options before the arm returns to its
+            # wait (the later questions to the policy are asked with the pending options, not with the request's)
+            upb = [bi for (bi, p) in ups]
+            for (ga, gb) in guards_:
+                esc = bv.reach_from([gb], avoid=upb) & (sel_blocks | set(bv.exits())) if upb else {ga}
+                R.check("C11-R3", "on-demand-always-upgrades:" + (bv.body.get("item") or bv.id.split("::")[-2]), not esc,
+                        "an on-demand request taken while busy always sets the pending options' source to OnDemand",
+                        "an on-demand request taken while busy can be answered without raising the pending options to OnDemand: the next question to the policy is asked as a scheduled task", lib.loc(bv, ga))
         if not ups:
             continue
-        guards_ = lib.equal_edges(bv, lambda t: "@StartUpdateCheck.options.source" in lib.apath(t) and "OnDemand" in lib.apath(t))
         for (bi, p) in ups:
             n_up += 1
             R.check("C11-R3", "upgrade-guarded:" + (bv.body.get("item") or bv.id.split("::")[-2]), guards_ and bv.dominated_by_edge(bi, guards_), "options.source = OnDemand only under new_options.source == OnDemand",
